@@ -251,6 +251,38 @@ Proof.
   - right. destruct (aux_reports_violation methods Hwf settings [] [] r s Haux Hin Hv) as (e & He). exists r, e. auto.
 Qed.
 
+(* ---- selective generation: the table is a sub-table, so nothing that names no method of the proto gets through ---- *)
+Lemma NoDup_map_filter {A} (f : A -> string) (p : A -> bool) l : NoDup (map f l) -> NoDup (map f (filter p l)).
+Proof.
+  induction l as [|a l IH]; intros H; cbn; [constructor|]. cbn in H. inversion H as [|x t Hnotin Hnd]; subst.
+  destruct (p a); [|now apply IH]. cbn. constructor; [|now apply IH].
+  intros Hin. apply Hnotin. apply in_map_iff in Hin. destruct Hin as (y & Hy & Hyin).
+  apply filter_In in Hyin. destruct Hyin as [Hyin _]. rewrite <- Hy. now apply in_map.
+Qed.
+
+Lemma visible_sub allow internal methods m : In m (visible_methods allow internal methods) -> In m methods.
+Proof.
+  unfold visible_methods. destruct allow; [auto|]. destruct internal; [auto|]. intros H. apply filter_In in H. tauto.
+Qed.
+
+Lemma visible_wf allow internal methods : methods_wf methods -> methods_wf (visible_methods allow internal methods).
+Proof.
+  intros (Hnd & Hfu). split.
+  - unfold visible_methods. destruct allow; [exact Hnd|]. destruct internal; [exact Hnd|]. now apply NoDup_map_filter.
+  - intros m fs Hin Hfs. apply (Hfu m fs); [|exact Hfs]. eapply visible_sub; eauto.
+Qed.
+
+(* a selector that names no method of the proto is rejected whatever the allow-list and its mode *)
+Lemma unknown_selector_rejected_selective allow internal methods settings s :
+  methods_wf methods -> In s settings -> (forall m, In m methods -> m_selector m <> s_selector s) ->
+  let table := visible_methods allow internal methods in
+  enforce table settings = Crashed \/
+  exists errs e, enforce table settings = Rejected errs /\ assoc (s_selector s) errs = Some e.
+Proof.
+  intros Hwf Hin Hno table. apply each_single_violation_rejected; [now apply visible_wf|exact Hin|].
+  left. intros m Hm. apply Hno. eapply visible_sub; eauto.
+Qed.
+
 Lemma dup_persist methods sel : forall settings seen errs r,
   In sel seen -> assoc sel errs = Some SDuplicate ->
   enforce_aux methods seen errs settings = Some r -> assoc sel r = Some SDuplicate.
@@ -554,3 +586,12 @@ Proof.
   pose proof (find_by_name_sound rf_name n fs f Hf) as [Hfin Hfn].
   assert (g = f) by (apply (uniq_by_name rf_name fs); [exact (Hfu m fs Hm Hfs)|exact Hg|exact Hfin|congruence]). subst g. auto.
 Qed.
+
+(* what the unchanged code does with an entry naming an existing method that the allow-list omits (pruning mode) *)
+Example pruned_method_not_found :
+  enforce (visible_methods ["pkg.Lib.GetBook"] false ex_methods) [mkSetting "pkg.Lib.CreateBook" ["request_id"]]
+    = Rejected [("pkg.Lib.CreateBook", SMethodNotFound)] /\
+  enforce (visible_methods ["pkg.Lib.GetBook"] true ex_methods) [mkSetting "pkg.Lib.CreateBook" ["request_id"]] = Accepted /\
+  enforce (visible_methods ["pkg.Lib.GetBook"] true ex_methods) [mkSetting "pkg.Lib.CreateBooks" ["request_id"]]
+    = Rejected [("pkg.Lib.CreateBooks", SMethodNotFound)].
+Proof. repeat split. Qed.
